@@ -25,6 +25,46 @@ var (
 	rtForwarder = mustHex("604036038060406000376020358060021460335780600314605457806005146043576000600083600060006000355af16061565b600060008360006000355afa6061565b60006000836000346000355af16061565b600060008360006000355af45b506001146073573d600060003e3d6000f35b60006000fd")
 )
 
+func init() {
+	// ebatch: ONE cosmos transaction carrying TWO signed dynamic-fee Ethereum transactions of user A
+	// with consecutive nonces n, n+1. E: 0 [contract creation, transfer to user C], 1 [transfer,
+	// transfer], 2 [transfer, contract creation]. Both are included, so the nonce must end at n+2.
+	extraBuilders["ebatch"] = func(r *Run, ctx sdk.Context, op Op) (*BuiltTx, error) {
+		w := r.W
+		u := w.Users[((op.A%len(w.Users))+len(w.Users))%len(w.Users)]
+		v := w.Users[((op.C%len(w.Users))+len(w.Users))%len(w.Users)]
+		app := r.Node.App
+		nonce := app.EvmKeeper.GetNonce(ctx, u.Eth)
+		base := app.FeeMarketKeeper.GetBaseFee(ctx)
+		if base == nil {
+			base = new(big.Int)
+		}
+		price := new(big.Int).Add(new(big.Int).Mul(base, big.NewInt(2)), big.NewInt(1_000_000_000))
+		tip := big.NewInt(1_000_000)
+		to := v.Eth
+		create := EthTxArgs{Type: 2, To: nil, Value: big.NewInt(0), GasLimit: 300_000, GasFeeCap: price, GasTipCap: tip, Data: initCode(rtWriter)}
+		xfer := EthTxArgs{Type: 2, To: &to, Value: big.NewInt(1_000_000_000_000), GasLimit: 100_000, GasFeeCap: price, GasTipCap: tip}
+		var list []EthTxArgs
+		switch ((op.E % 3) + 3) % 3 {
+		case 0:
+			list = []EthTxArgs{create, xfer}
+		case 1:
+			list = []EthTxArgs{xfer, xfer}
+		default:
+			list = []EthTxArgs{xfer, create}
+		}
+		for i := range list {
+			list[i].Nonce = nonce + uint64(i)
+		}
+		bz, err := EthBatchTx(app.EvmKeeper.ChainID(), u.Priv, list)
+		if err != nil {
+			return nil, err
+		}
+		bt := &BuiltTx{Op: op, Method: "", Bytes: bz, Kind: "ethbatch", Sender: u.Addr, EthNonce: nonce, NEth: len(list)}
+		return bt, nil
+	}
+}
+
 func mustHex(s string) []byte {
 	b, err := hex.DecodeString(s)
 	if err != nil {
